@@ -400,6 +400,41 @@ func checkC01(c *Ctx) {
 					}
 				}
 			}
+			// the same addition written with `+`: the carry is lost by construction
+			plain := ""
+			for _, b := range fn.Blocks {
+				for _, in := range b.Instrs {
+					bo, ok := in.(*ssa.BinOp)
+					if !ok || bo.Op != token.ADD || !isInteger(bo.Type()) {
+						continue
+					}
+					for _, a := range []ssa.Value{bo.X, bo.Y} {
+						if ld, ok := stripConv(a).(*ssa.UnOp); ok && ld.Op == token.MUL {
+							if ia, ok := ld.X.(*ssa.IndexAddr); ok {
+								if k, ok := constInt(ia.Index); ok && k == N-1 && types.Identical(derefAll(ia.X.Type()), et.Type()) {
+									// `s := a + b; carry := s < a` recovers the carry: not a lost one
+									recovered := false
+									if bo.Referrers() != nil {
+										for _, r := range *bo.Referrers() {
+											if cmp, ok := r.(*ssa.BinOp); ok && (cmp.Op == token.LSS || cmp.Op == token.GTR || cmp.Op == token.LEQ || cmp.Op == token.GEQ) {
+												for _, o := range []ssa.Value{cmp.X, cmp.Y} {
+													if o != ssa.Value(bo) && (sameValue(o, bo.X, 0) || sameValue(o, bo.Y, 0)) {
+														recovered = true
+													}
+												}
+											}
+										}
+									}
+									if !recovered {
+										plain = p.Pos(bo.Pos())
+									}
+								}
+							}
+						}
+					}
+				}
+			}
+			c.Ob("C01.carry", pk, funcKey(fn), "no-wrapping-add-on-top-limb", p.Pos(fn.Pos()), plain == "", funcKey(fn)+": the top limb is added with `+` at "+plain+": the modulus fills the limb, so the sum wraps around 2^(word size) and the carry is lost (math/bits.Add keeps it)")
 			if n > 0 {
 				c.Ob("C01.carry", pk, funcKey(fn), "top-limb-carry-consumed", p.Pos(fn.Pos()), bad == "", funcKey(fn)+": the carry-out of the addition on the top limb at "+bad+" is discarded although the modulus fills the limb: for operands whose sum does not fit, the result is off by 2^(word size)")
 			}
